@@ -1,11 +1,11 @@
 BASELINE_OFF = ("cd /repo && GOFLAGS=-mod=mod go test -json -vet=off -count=1 -timeout 25m ./...")
-HOOK_COMMITS = []
-FIX_COMMITS = ["c1b5c0f", "71a23ea", "b7bf76b", "da38f0a"]
+HOOK_COMMITS = ["verif hooks: pkg/allocator epoch tick for DistributedAllocator (build tag verif)"]
+FIX_COMMITS = ["c1b5c0f", "71a23ea", "b7bf76b", "da38f0a", "c6de14e", "fccc5fe", "bde8047"]
 NOTES = ("Every check: bin/check <id> --tier quick|thorough [--replay file]. Exit 0 held (KNOWN-FINDING lines for listed findings), "
          "1 new violation (VIOLATION line), 2 infrastructure failure (never a verdict). Specifications under specs/, conformance harness under harness/ "
          "(Go test binaries built against /repo's working tree with -tags verif), driver under lib/. See DESIGN.md.")
 ENGINES = [
-    dict(name="tlc-table", path="lib/tablecheck.py", serves_properties=["C01", "C05"],
+    dict(name="tlc-table", path="lib/tablecheck.py", serves_properties=["C01", "C05", "C12"],
          kind_free_text="TLA+ contract spec model-checked by TLC; transition tables and traces extracted from the real Go objects are walked by a TLA+ monitor spec under TLC"),
 ]
 TLC_TABLE_TEXT = ("TLC decides it twice: (1) the contract specification is model-checked exhaustively for small constants to imply the property; "
@@ -20,10 +20,15 @@ CLAIMS = {
                 text=TLC_TABLE_TEXT, technique="TLA+ contract + TLC over extracted tables with epoch advances, store faults and drain probes",
                 note="trusted: as C01; the Drain probe allocates fresh subscribers until exhaustion on a dedicated replay of each state"),
 }
+CLAIMS["C12"] = dict(engine="tlc-table", category="model_checking", design_ref="DESIGN.md section 7 C12",
+                text=TLC_TABLE_TEXT + " For C12 the extracted systems are the real DistributedAllocator over a scripted store with write/delete failures, restarts under every query order "
+                "and remote changes, plus marshal round trips of the bitmap and epoch allocators; an implementation-shaped TLA+ model of load/remote-apply (PersistDesign) is model-checked exhaustively.",
+                technique="TLA+ persistence model checked by TLC + extracted tables of the real allocator over a fault-injecting store judged by a TLA+ monitor",
+                note="trusted: scripted store and synchronous watch delivery; crash = drop the object and restart on the same store; needs the verif-tagged epoch-tick hook in pkg/allocator")
 _later = "check not built yet in this session (planned, see DESIGN.md section 11); not claimed until it exists and is sound"
 NOT_APPLICABLE = {
     "C06": "Go/C struct layout and key-encoding agreement is encode/decode fidelity with no state or transition to specify; a TLA+ model cannot decide it (DESIGN.md section 8)",
     "C07": "memory safety of C kernel programs needs guard pages/sanitizers/the kernel verifier, not a state-machine specification (DESIGN.md section 8)",
 }
-for p in ["C02", "C03", "C04", "C08", "C09", "C10", "C11", "C12", "C13", "C14", "C15", "C16", "C17", "C18", "C19", "C20"]:
+for p in ["C02", "C03", "C04", "C08", "C09", "C10", "C11", "C13", "C14", "C15", "C16", "C17", "C18", "C19", "C20"]:
     NOT_APPLICABLE[p] = _later
